@@ -15,7 +15,7 @@ ENGINES = [
                        "system on the edited assignment with forward re-derivation of dependent hints; shadow lies "
                        "re-executed through the library with ignore_errors on); the verifier is constraint evaluation"},
     {"name": "tracesim", "path": "sim/tracesim.py",
-     "serves_properties": ["C01", "C04", "C06", "C08", "C10", "C11"],
+     "serves_properties": ["C01", "C04", "C06", "C07", "C08", "C10", "C11"],
      "kind_free_text": "in-process deterministic simulation: seeded plan (program + inputs + fault schedule) "
                        "generated as data, compiled to Python source, executed against a fresh import of the real "
                        "pysnark with the real backend module wrapped by a recorder; invariants after every event"},
@@ -39,6 +39,13 @@ _P = "seeded search over lying-prover fault schedules (deterministic simulation,
 _X = "seeded search over crash points x termination modes x configurations, one fresh interpreter per run (deterministic simulation, crash injection)"
 
 CHECK_META = {
+    "C07": {"engine": "tracesim+proversim", "design_ref": "3/C07", "technique": _T + "; twin executions; lying prover on dead-region hints",
+            "text": "guards as fault-containment regions: domain faults injected inside false-guard regions at every "
+                    "nesting level (no value-caused exception may escape, trace stays satisfied, lies on dead hints "
+                    "cannot move outside values); unguarded twin for true guards; sampling",
+            "note": "plain-int zero divisors and plain-int out-of-range indices are the script's own static errors and "
+                    "are not generated / not judged; 'same enforcement' under true guards is covered only through "
+                    "the equality of errors and values with the unguarded twin"},
     "C19": {"engine": "exitsim", "design_ref": "3/C19", "technique": _X + "; thorough tier sweeps the whole finite configuration space",
             "text": "configuration x import-order history x import-failure faults, one fresh interpreter each, plus a "
                     "short traced program; quick samples 320 of the 976 configurations, thorough runs all of them",
